@@ -152,16 +152,20 @@ def run_order(case, res):
         try:
             ins = [SpyFuture("in%d" % i) for i in range(n)]
             excs = {}
+            # every fifth combination: the inputs are library futures derived from the harness's ones
+            wrap = (None, None, "map", None, "proxy")[ci % 5]
+            F = instr.ME.futures
+            given = ins if wrap is None else [(F.f_map(f, lambda v: v) if wrap == "map" else F.f_proxy(f)) for f in ins]
             for i in order[:pre]:
                 if assign[i] != "N":
                     complete(ins[i], assign[i], i, excs)
             try:
-                out = mk(op, ins)
+                out = mk(op, given)
             except BaseException as e:
                 res.violation("constructor-raised/%s/%s" % (op, type(e).__name__), "f_%s with %d already finished inputs (%s) raised %r" % (op, pre, assign, e))
                 res.execs += 1
                 continue
-            if n == 1 and out is not ins[0]:
+            if n == 1 and out is not given[0]:
                 res.violation("single-input-not-returned/%s" % op, "f_%s(f) did not return f itself" % op)
             escaped = None
             for i in order[pre:]:
@@ -174,13 +178,13 @@ def run_order(case, res):
                 res.violation("callback-raised-into-completer/%s" % type(escaped).__name__,
                               "f_%s %s: completing an input let %r escape from the combinator's callback" % (op, assign, escaped))
             res.execs += 1
-            label = "f_%s %s order=%s (%d finished before the call)" % (op, assign, order, pre)
+            label = "f_%s %s order=%s (%d finished before the call%s)" % (op, assign, order, pre, ", inputs given as f_%s views" % wrap if wrap else "")
             # inputs already finished at the call are seen in argument order
             order = tuple(sorted(order[:pre])) + tuple(order[pre:])
             if n > 1:
                 check(res, label, op, out, ins, assign, [order], excs)
             if fold(op, assign, order)[0][0] != "pending":
-                res.key(op, assign, order, pre)
+                res.key(op, assign, order, pre, wrap)
             res.sample({"op": op, "inputs": assign, "completion_order": order, "output": outcome_repr(outcome(out)),
                         "cancels_received": [len(f.cancel_calls) for f in ins]}, limit=1)
         finally:
